@@ -1,5 +1,5 @@
 (** C12 — every escrow record is well-formed and therefore payable. *)
-From FM Require Import Accept Reentrant CallSeq.
+From FM Require Import Accept Reentrant ReentrantDeep CallSeq.
 
 (** [wf_gbal g]: at least one asset, every amount in 1 .. 2^128-1, no duplicate denomination,
     token or NFT.  [wf_listing k l]: filed under (creator, id); goods and ask well-formed; ask
@@ -24,6 +24,19 @@ Theorem C12_wf_always_with_reentry : forall w tx, initial w ->
   (forall k b, In (k, b) (buckets s) -> wf_bucket k b).
 Proof. exact reach_wf_with_reentry. Qed.
 Print Assumptions C12_wf_always_with_reentry.
+
+(** ... and with re-entrancy nested to any depth (model/ReentryDeep.v): [trun] runs transactions
+    given as trees, each call carrying the program that runs if it is re-entered. *)
+Theorem C12_wf_always_with_deep_reentry : forall w prog, initial w ->
+  let s := market (trun w prog) in
+  (forall k l, In (k, l) (listings s) -> wf_listing k l) /\
+  (forall k b, In (k, b) (buckets s) -> wf_bucket k b).
+Proof. exact deep_wf. Qed.
+Print Assumptions C12_wf_always_with_deep_reentry.
+
+Theorem C12_invariant_kept_by_every_reaction : forall k w, reaction k -> Inv (market w) -> Inv (market (k w)).
+Proof. exact reaction_Inv. Qed.
+Print Assumptions C12_invariant_kept_by_every_reaction.
 
 (** Under every interleaving: the invariant holds after any sequence of successful calls. *)
 Theorem C12_wf_under_every_interleaving : forall s s', mreach s s' -> Inv s -> Inv s'.
